@@ -28,14 +28,29 @@ func init() {
 }
 
 type rfile struct {
-	lens   []int
-	marker bool
+	lens    []int
+	marker  bool
+	corrupt int // 1+index of a member whose CRC32 is wrong (0: none); only for the differential search
+}
+
+// mkFile builds the file; a corrupt member keeps its framing and deflate data, only the stored
+// CRC32 is wrong, so every reader must fail on it in the same way each time it is decoded.
+func mkFile(name string, lens []int, marker bool, corrupt int) *rdr.File {
+	f := rdr.MakeFile(name, lens, marker)
+	if corrupt > 0 {
+		f.Data = append([]byte(nil), f.Data...)
+		f.Data[f.Bases[corrupt]-8] ^= 0xff
+	}
+	return f
 }
 
 func (f rfile) name() string {
 	s := fmt.Sprint(f.lens)
 	if f.marker {
-		return s + "+EOF"
+		s += "+EOF"
+	}
+	if f.corrupt > 0 {
+		s += fmt.Sprintf(" (member %d has a wrong CRC)", f.corrupt-1)
 	}
 	return s
 }
@@ -44,6 +59,7 @@ type bfsCase struct {
 	File   string   `json:"file"`
 	Lens   []int    `json:"lens"`
 	Marker bool     `json:"marker"`
+	Bad    int      `json:"corrupt_member_plus_1,omitempty"`
 	Cache  string   `json:"cache,omitempty"`
 	Cap    int      `json:"cap,omitempty"`
 	Ops    []rdr.Op `json:"ops"`
@@ -237,7 +253,7 @@ func runHistory(c *Ctx, f *rdr.File, cas bfsCase, withCache bool, probe bool) (k
 		if withCache && cur != nil && aliased(r, cur) {
 			key2 = "ALIAS " + key2
 		}
-		if probe {
+		if probe && cas.Bad == 0 {
 			// differential guard for the state key: from any state, reading everything must
 			// give the rest of the flat data (the model knows the position)
 			r.Blocked = false
@@ -261,10 +277,10 @@ func runHistory(c *Ctx, f *rdr.File, cas bfsCase, withCache bool, probe bool) (k
 }
 
 func bfsOne(c *Ctx, rf rfile, cacheKind string, cacheCap int, withCache bool, st *bfsStats, maxStates int) {
-	f := rdr.MakeFile(rf.name(), rf.lens, rf.marker)
+	f := mkFile(rf.name(), rf.lens, rf.marker, rf.corrupt)
 	menu := readerMenu(f, cacheKind, cacheCap)
 	mk := func(ops []rdr.Op) bfsCase {
-		return bfsCase{File: f.Name, Lens: rf.lens, Marker: rf.marker, Cache: cacheKind, Cap: cacheCap, Ops: ops}
+		return bfsCase{File: f.Name, Lens: rf.lens, Marker: rf.marker, Bad: rf.corrupt, Cache: cacheKind, Cap: cacheCap, Ops: ops}
 	}
 	rootKey, _ := runHistory(c, f, mk(nil), withCache, false)
 	seen := map[string]bool{rootKey: true}
@@ -378,13 +394,13 @@ func readerBFS(c *Ctx, withCache bool) {
 			c.Infra = err.Error()
 			return
 		}
-		f := rdr.MakeFile(cas.File, cas.Lens, cas.Marker)
+		f := mkFile(cas.File, cas.Lens, cas.Marker, cas.Bad)
 		runHistory(c, f, cas, withCache, false)
 		return
 	}
-	files := []rfile{{[]int{3, 1, 2}, true}, {[]int{2, 0, 3}, true}, {[]int{1, 2, 0}, true}, {[]int{3, 1, 2}, false}, {[]int{2, 0, 3}, false}, {[]int{1, 2, 0}, false}}
+	files := []rfile{{lens: []int{3, 1, 2}, marker: true}, {lens: []int{2, 0, 3}, marker: true}, {lens: []int{1, 2, 0}, marker: true}, {lens: []int{3, 1, 2}, marker: false}, {lens: []int{2, 0, 3}, marker: false}, {lens: []int{1, 2, 0}, marker: false}}
 	if c.Thorough {
-		files = append(files, rfile{[]int{65280, 1}, true}, rfile{[]int{1, 0, 0, 2}, true})
+		files = append(files, rfile{lens: []int{65280, 1}, marker: true}, rfile{lens: []int{1, 0, 0, 2}, marker: true})
 	}
 	var st bfsStats
 	if !withCache {
@@ -393,7 +409,7 @@ func readerBFS(c *Ctx, withCache bool) {
 			bfsOne(c, rf, "", 0, false, &st, 0)
 		}
 	} else {
-		c.Rule = "rd=1: as C02 plus SetCache(kind,cap) and SetCache(nil) as operations at any point, one BFS per cache kind x capacity; state key additionally holds the cache's queue (keys, bases, used flags, whether an entry is the Reader's current block); every transition compared, operation by operation, with an uncached Reader driven by the same history (bytes, error class, LastChunk), plus the read-to-end probe on merged transitions. Non-trivial: transitions executed with a cache attached."
+		c.Rule = "rd=1: as C02 plus SetCache(kind,cap) and SetCache(nil) as operations at any point, one BFS per cache kind x capacity; state key additionally holds the cache's queue (keys, bases, used flags, whether an entry is the Reader's current block); every transition compared, operation by operation, with an uncached Reader driven by the same history (bytes, error class, LastChunk), plus the read-to-end probe on merged transitions; also on [3 1 2]+EOF with a wrong CRC32 in member 1 (lockstep comparison only: same bytes, same error class at every step). Non-trivial: transitions executed with a cache attached."
 		kinds := []string{"LRU", "FIFO", "Random"}
 		caps := []int{1, 2}
 		fs := files[:2]
@@ -407,6 +423,17 @@ func readerBFS(c *Ctx, withCache bool) {
 				for _, cp := range caps {
 					bfsOne(c, rf, k, cp, true, &st, 60000)
 				}
+			}
+		}
+		// a file with a damaged member: the cached reader must fail where the uncached one fails,
+		// every time the member is reached (no flat model here, only the lockstep comparison)
+		bad := rfile{lens: []int{3, 1, 2}, marker: true, corrupt: 2}
+		for _, k := range kinds {
+			if !c.Thorough && k == "FIFO" {
+				continue
+			}
+			for _, cp := range caps {
+				bfsOne(c, bad, k, cp, true, &st, 60000)
 			}
 		}
 	}
